@@ -55,7 +55,7 @@ theorem allL (K : BKernel) (S : AllSpec R gl h) (l : Container) (ls bs : Bitmap)
   · intro hall
     refine ⟨?_, fun y => ?_⟩
     · obtain ⟨i, hi⟩ := wf_nonempty K l hl
-      have hlt := Store.elems_lt K _ hli i hi
+      have hlt := Store.elems_ltK K _ hli i hi
       have := ((key (l.key * 65536 + i)).mp (hall _)).1 (by omega)
       rcases this with h1 | h1
       · exact h1
@@ -115,7 +115,7 @@ theorem allB (K : BKernel) (S : AllSpec R gl h) (l r : Container) (ls rs : Bitma
     · by_cases hi : i < 65536
       · have := ((key (l.key * 65536 + i)).mp (hall _)).1 (by omega)
         rwa [show (l.key * 65536 + i) % 65536 = i by omega] at this
-      · have h1 : i ∉ l.store.elems := fun hc => hi (Store.elems_lt K _ hli i hc)
+      · have h1 : i ∉ l.store.elems := fun hc => hi (Store.elems_ltK K _ hli i hc)
         have : (i ∈ l.store.elems) = False := by simp [h1]
         rw [this]; exact S.leftFalse _
     · by_cases hy : y / 65536 = l.key
